@@ -43,6 +43,40 @@ CLAIMED = {
         note="Model-based sampling; identity tracked by a harness-owned per-atom array; composites with + and *, repeated objects, default labels included.",
         technique="deterministic simulation + executable reference model (uid -> label / particle) checked after every trial",
         design="§4 C05"),
+    "C02": dict(
+        level="exploration",
+        text=("Every acceptance decision taken in generated deployments of all criteria (canonical, Hamiltonian, isobaric, "
+              "isotension, grand canonical) is refereed against ln u < ln A evaluated independently in log space; the "
+              "uniform comes from the driver's own generator through a recording seam and is scripted to 0, A(1-1e-6), "
+              "A(1+1e-6) and 1-2^-53 on a tape; energy scales are randomised so |dE|/kT reaches far beyond 709 in both "
+              "directions; parameters are changed between trials."),
+        note="Energies recomputed by the analytic potential from the two configurations; boundary-indeterminate decisions are counted, not judged; multi-particle exchanges and user criteria are not judged.",
+        technique="deterministic simulation with generator and calculator seams; executable reference rule checked on every decision of the history campaign",
+        design="§4 C02"),
+    "C11": dict(
+        level="exploration",
+        text=("Displacement trials (single and composite, all operations, generated and history-produced label arrays) "
+              "are observed at criteria entry, i.e. after the move and before a possible revert, and compared with the "
+              "pre-trial snapshot and with the result returned by a recording operation."),
+        note="Observation uses the two call-outs the code already makes (check_move, criteria.evaluate); FixCom runs are excluded from the no-other-atom clause because the constraint itself shifts every atom.",
+        technique="deterministic simulation; post-move/pre-revert snapshot oracle at the criteria seam",
+        design="§4 C11"),
+    "C12": dict(
+        level="exploration",
+        text=("FixAtoms / FixCom / FixRot deployments under displacement, composite, Hamiltonian (random dt, steps) and "
+              "force-bias (random delta, T) moves through forced accept/reject/veto histories; fixed rows bitwise, "
+              "centre of mass, angular and linear momentum checked at criteria entry and after every trial or step."),
+        note="FixAtoms+FixCom is not generated (ASE applies constraints sequentially, one undoes the other by construction); FixRot only on non-periodic clusters.",
+        technique="deterministic simulation with constraint dimension; invariants checked every trial/step",
+        design="§4 C12"),
+    "C20": dict(
+        level="exploration",
+        text=("Bare protocol-only moves and criteria with an attribute-access log are run in all six Monte Carlo drivers, "
+              "alone and next to shipped moves, with truthy/falsy non-bool results, under accept/reject histories; access "
+              "log, criteria routing, serialization and atom-count / cell notifications are checked per trial."),
+        note="Only accesses from outside the bare object are logged; notifications are compared with the uid diff / cell of the accepted trial.",
+        technique="deterministic simulation with strict user plug-ins at the protocol seam; access-log and notification-log oracles",
+        design="§4 C20"),
 }
 
 NOT_APPLICABLE = {
